@@ -10,8 +10,9 @@ Ltac Zify.zify_post_hook ::= Z.div_mod_to_equations.
 
 (* ---------------------------------------------------------------- 3DS *)
 Definition supported3ds (t : tex) : Prop :=
-  (listed_color_format (t_fmt t) = true \/ t_fmt t = 12 \/ t_fmt t = 13) /\
-  (exists a b, t_w t = 8 * 2 ^ a /\ t_h t = 8 * 2 ^ b) /\ t_w t * t_h t < 2 ^ 32 /\
+  ((listed_color_format (t_fmt t) = true /\ t_w t mod 8 = 0 /\ t_h t mod 8 = 0) \/
+   ((t_fmt t = 12 \/ t_fmt t = 13) /\ exists a b, t_w t = 8 * 2 ^ a /\ t_h t = 8 * 2 ^ b)) /\
+  t_w t * t_h t < 2 ^ 32 /\
   lenN (t_data t) = payload_size (t_fmt t) (t_w t) (t_h t).
 
 (* the pixels of a supported texture (computed in the wrapping mode; the checked mode gives the same) *)
@@ -38,13 +39,9 @@ Lemma decode_supported m t : supported3ds t ->
   exists px, decode_pixel_data m (t_data t) (t_w t) (t_h t) (t_fmt t) = Ok px /\
              decode_pixel_data Wrapping (t_data t) (t_w t) (t_h t) (t_fmt t) = Ok px.
 Proof.
-  intros (Hfmt & (a & b & Hw & Hh) & Hsz & Hlen).
-  assert (W8 : t_w t mod 8 = 0) by (rewrite Hw, N.mul_comm; apply N.mod_mul; lia).
-  assert (H8 : t_h t mod 8 = 0) by (rewrite Hh, N.mul_comm; apply N.mod_mul; lia).
-  assert (Wpos : 0 < t_w t) by (rewrite Hw; pose proof (N.pow_nonzero 2 a); lia).
-  assert (Hpos : 0 < t_h t) by (rewrite Hh; pose proof (N.pow_nonzero 2 b); lia).
+  intros (Hfmt & Hsz & Hlen).
   unfold decode_pixel_data, decode_pixels.
-  destruct Hfmt as [Hl | He].
+  destruct Hfmt as [(Hl & W8 & H8) | (He & a & b & Hw & Hh)].
   - assert (L11 : t_fmt t <=? 11 = true) by (destruct (listed_cases _ Hl) as [->|[->|[->|[->|[->|[->| ->]]]]]]; reflexivity).
     rewrite L11.
     assert (Hlen' : lenN (t_data t) = bytes_per_element (t_fmt t) * (t_w t * t_h t)).
@@ -53,7 +50,11 @@ Proof.
         rewrite <- ?N.mul_assoc; generalize (t_w t * t_h t); intros q; lia. }
     rewrite (decode_rgba_as_scatter m _ _ _ _ Hl W8 H8 Hsz Hlen'), (decode_rgba_as_scatter Wrapping _ _ _ _ Hl W8 H8 Hsz Hlen').
     cbn [bind]. eexists. split; reflexivity.
-  - assert (Tw : etc_tiles (t_w t) = t_w t / 8) by (rewrite Hw, etc_tiles_pow2; rewrite N.mul_comm, N.div_mul by lia; reflexivity).
+  - assert (W8 : t_w t mod 8 = 0) by (rewrite Hw, N.mul_comm; apply N.mod_mul; lia).
+    assert (H8 : t_h t mod 8 = 0) by (rewrite Hh, N.mul_comm; apply N.mod_mul; lia).
+    assert (Wpos : 0 < t_w t) by (rewrite Hw; pose proof (N.pow_nonzero 2 a); lia).
+    assert (Hpos : 0 < t_h t) by (rewrite Hh; pose proof (N.pow_nonzero 2 b); lia).
+    assert (Tw : etc_tiles (t_w t) = t_w t / 8) by (rewrite Hw, etc_tiles_pow2; rewrite N.mul_comm, N.div_mul by lia; reflexivity).
     assert (Th : etc_tiles (t_h t) = t_h t / 8) by (rewrite Hh, etc_tiles_pow2; rewrite N.mul_comm, N.div_mul by lia; reflexivity).
     assert (M64 : (t_w t * t_h t) mod 16 = 0).
     { assert (Ew : t_w t = 8 * (t_w t / 8)) by lia. assert (Eh : t_h t = 8 * (t_h t / 8)) by lia.
